@@ -59,6 +59,8 @@ pub struct Q1Snap {
     pub started_unfinished: Vec<u32>,
     pub strong: Vec<Option<usize>>,
     pub value_drops: Vec<u32>,
+    /// owners (strong references) alive per object, whoever holds them
+    pub live_owners: Vec<usize>,
     /// (stream drops, closure drops)
     pub streams: Vec<(u32, u32)>,
     pub queues: Vec<Option<(u8, usize, usize)>>,
@@ -177,6 +179,7 @@ fn take_snapshot(pi: usize, code: &'static str) -> Q1Snap {
     for o in world.objs.iter() {
         snap.strong.push(o.arc.as_ref().map(|a| Arc::strong_count(a)));
         snap.value_drops.push(o.value_drops);
+        snap.live_owners.push(o.weak.as_ref().map_or(0, |w| w.strong_count()));
         snap.queues.push(o.queue.as_ref().and_then(|q| q.verif_peek()));
     }
     for st in world.streams.iter() {
@@ -221,6 +224,7 @@ fn controller(prog: Arc<Program>) {
         let q = d.verif_queue().clone();
         let world = w();
         world.objs[o].queue = Some(q);
+        world.objs[o].weak = Some(Arc::downgrade(&d));
         world.objs[o].arc = Some(d);
     }
     if prog.prespawn {
@@ -446,6 +450,7 @@ fn controller(prog: Arc<Program>) {
     }
     for o in world.objs.iter_mut() {
         o.queue = None;
+        o.weak = None;
     }
 }
 
